@@ -190,7 +190,7 @@ def r19_3(ctx):
         rt = norm(r.node, 30000)
         from .common import pm_of
         prr = pm_of(p, r)
-        reads = prr.has("msg = await self.reader.readuntil(self.LINE_TERMINATOR)") and prr.has("m = RE_LITERAL_STRING_START.search(msg)") and prr.has("length = int(m.group(1))") and prr.has("await self.reader.readexactly(length)")
+        reads = prr.has("msg = await self.reader.readuntil(self.LINE_TERMINATOR)") and prr.has("m = RE_LITERAL_STRING_START.search(msg)") and ((prr.has("length = int(m.group(1))") and prr.has("await self.reader.readexactly(length)")) or prr.has("await self.reader.readexactly(int(m.group(1)))"))
         lt = [s for s in p.cls(r.cls).node.body if isinstance(s, ast.Assign) and norm(s.targets[0]) == "LINE_TERMINATOR"]
         term_ok = lt and isinstance(lt[0].value, ast.Constant) and lt[0].value.value == b"\n"
         if accepts and reads and term_ok:
@@ -404,7 +404,7 @@ def r19_9(ctx):
     checks = [
         (["if msg:\n    self.ibuffer.append(msg)\n    ..."],
          "a non-empty line is kept", "the line just read is not appended exactly when it is non-empty: client lines are dropped"),
-        (["if not self.ibuffer:\n    await self.push(...)\n    continue"],
+        (["if not self.ibuffer:\n    await self.push(...)\n    continue", "if not self.ibuffer:\n    await self.push(...)\nelse:\n    ..."],
          "an empty command gets BAD and the loop reads on", "the empty-command refusal fires on the wrong arm or does not go back to reading: an empty buffer is relayed / every command is refused"),
         (["if literal_str_length > MAX_INPUT_SIZE:\n    ...\n    await self.push(...)\n    ...\n    continue", "if literal_str_length >= MAX_INPUT_SIZE:\n    ...\n    await self.push(...)\n    ...\n    continue"],
          "an over-limit literal gets BAD and the loop reads on (the literal is not read)", "the over-limit literal refusal fires on the wrong arm, or falls through to reading the literal"),
